@@ -265,7 +265,8 @@ def run_api(desc, root, rec):
         msnap = map_snapshot(oFile)
         alone = {}
         reparse = 0
-        for r in sorted(real_rules(oRules), key=lambda r: r.unique_id):
+        single = desc.get("alone_order")  # "fwd" / "rev": one pass only (the orchestrator runs each pass in a child of its own)
+        for r in sorted(real_rules(oRules), key=lambda r: r.unique_id, reverse=(single == "rev")):
             r.disable = False
             r.violations = []
             try:
@@ -292,7 +293,7 @@ def run_api(desc, root, rec):
         oFileB, oRulesB, _ = S.build()
         snapB, msnapB = shallow_items(oFileB), map_snapshot(oFileB)
         aloneB = {}
-        for r in sorted(real_rules(oRulesB), key=lambda r: r.unique_id, reverse=True):
+        for r in sorted(real_rules(oRulesB), key=lambda r: r.unique_id, reverse=True) if not single else []:
             r.disable = False
             r.violations = []
             try:
@@ -333,6 +334,25 @@ def run_api(desc, root, rec):
         out["dep_preds"] = dep_preds
         out["meta"]["reparses"] = reparse
         out["meta"]["text0"], out["meta"]["light0"] = T0, L0
+
+    # ---- a rule's report from objects (and, being a child of its own, a process) nobody else touched
+    if desc.get("suspect_rules"):
+        fresh = {}
+        for u in desc["suspect_rules"]:
+            try:
+                oF, oR, _ = S.build()
+            except (Exception, SystemExit):
+                break
+            for r in oR.rules:
+                if r.unique_id == u:
+                    r.disable = False
+                    r.violations = []
+                    try:
+                        r.analyze(oF)
+                        fresh[u] = vio(r)
+                    except Exception:
+                        fresh[u] = None
+        out["fresh"] = fresh
 
     # ---- reference B + generated schedules
     for si, s in enumerate(desc.get("schedules", [])):
